@@ -246,3 +246,64 @@ func H_C10_sequence() {
 	}
 	vReach("end")
 }
+
+//verif:witness H_C10_async end
+//verif:bound C10 all async logger (capacity 1, worker parked in a gated appender, 3 policies): three events through Info with all hooks set, the later ones taking the buffer-full path; every record that is delivered carries its own hook time, context string, context fields and own fields
+//verif:engine-only H_C10_async
+
+// H_C10_async: what an async logger delivers is the record as populated, also after overflow handling.
+func H_C10_async() {
+	vOpt("loop", 400)
+	vOpt("chancap", 1)
+	policy := BufferFullPolicy(vChoose("policy", 3))
+	var n int
+	TimeNow = func(ctx context.Context) time.Time { n++; return time.Unix(int64(1700000000+n), 0) }
+	StringFromContext = func(ctx context.Context) string { return "ctx-string" }
+	FieldsFromContext = func(ctx context.Context) []Field { return []Field{String("c1", "x")} }
+	defer func() { TimeNow, StringFromContext, FieldsFromContext = nil, nil, nil }()
+	app := &vEventGate{gate: make(chan int, 8)}
+	all := LevelRange{MinLevel: NoneLevel, MaxLevel: MaxLevel}
+	l := &AsyncLogger{LoggerBase: LoggerBase{Name: "a", Level: all}, BufferSize: 100, BufferFullPolicy: policy}
+	l.AppenderRefs.AppenderRefs = []*AppenderRef{{Appender: app, Level: all}}
+	if err := l.Start(); err != nil {
+		panic(err)
+	}
+	tag := &Tag{tag: "_t_x", logger: l}
+	if policy == BufferFullPolicyBlock {
+		for i := 0; i < 8; i++ {
+			app.gate <- 1
+		}
+	}
+	Info(vCtx, tag, Msg("one"), Int("k", 1))
+	Info(vCtx, tag, Msg("two"), Int("k", 2))
+	Info(vCtx, tag, Msg("three"), Int("k", 3))
+	if policy != BufferFullPolicyBlock {
+		for i := 0; i < 8; i++ {
+			app.gate <- 1
+		}
+	}
+	l.Stop()
+	vAssert(len(app.events)+int(l.GetDiscardCounter()) == 3, "delivered-or-counted")
+	for _, e := range app.events {
+		vAssert(e.CtxString == "ctx-string" && len(e.CtxFields) == 1 && e.CtxFields[0].Key == "c1", "record-carries-context-data")
+		vAssert(len(e.Fields) == 2 && e.Fields[0].Key == "msg" && e.Fields[1].Key == "k", "record-carries-own-fields")
+		vAssert(e.Level.code == 300 && e.Tag == "_t_x", "record-level-and-tag")
+		k := int64(e.Fields[1].Num)
+		vAssert(1 <= k && k <= 3 && e.Time == time.Unix(1700000000+k, 0), "record-carries-its-own-hook-time")
+	}
+	vReach("end")
+}
+
+type vEventGate struct {
+	AppenderBase
+	gate   chan int
+	events []Event
+}
+
+func (g *vEventGate) Start() error { return nil }
+func (g *vEventGate) Stop()        {}
+func (g *vEventGate) Append(e *Event) {
+	<-g.gate
+	g.events = append(g.events, *e)
+}
+func (g *vEventGate) Write(b []byte) { <-g.gate }
